@@ -83,6 +83,7 @@ func (w *World) applyParam(st *Step) {
 	for _, n := range w.nodes {
 		act(n)
 	}
+	w.touch()
 	w.journal = append(w.journal, act)
 	w.Fault("param_change")
 }
